@@ -29,7 +29,7 @@ TRUSTED_BASE = ["numpy/torch primitives einsum, swapaxes, max, basic/None/list i
                 "IEEE-754: inputs are dyadic rationals so floats are exact; results compared at 1e-9 relative"]
 ASSUMPTIONS = ["torch backend: torch.Tensor(list) converts through float32 (pinned by a baseline test), so torch cases use float32-exact dyadic values; the magnitude stream is numpy only", "variable and state names are interned by the harness (ints are themselves, str -> 10^6+k, "
                "tuple -> 2*10^6+k)", "operands sharing a variable agree on its cardinality and state list",
-               "maximize is modelled by the max-product semiring: non-negative tables only"]
+               "maximize is modelled in the max-product semiring with a bottom element (entries of any sign)"]
 
 ATOL = Fr(1, 10**8)
 RTOL = Fr(1, 10**5)
@@ -662,7 +662,7 @@ def run_pair_ops(ctx, F, G, rng, light=False):
                    lambda r: [fw, X], spec, inplace_call=lambda o: o[0].marginalize(list(Xn), inplace=True))
         if b:
             return b
-        if not ctx.case.get("neg"):
+        if True:  # tables of any sign (model: max-product semiring with bottom)
             spec = {}
             for k in all_named(U, fv):
                 kk = restrict(k, keep)
@@ -1850,7 +1850,7 @@ def run_purity(case, drv):
         ("copy", lambda p, a: p.copy(), lambda: None, "c04_mk", lambda w: w),
         ("identity_factor", lambda p, a: p.identity_factor(), lambda: None, "c04_identity", lambda w: w),
     ]
-    if nonneg:
+    if True:
         methods.append(("maximize", lambda p, a: p.maximize(a, inplace=False), lambda: [N(v) for v in X], "c04_maximize", lambda w: [w, X]))
     for name, call, mkarg, entry, margs in methods:
         arg = mkarg()
